@@ -382,6 +382,20 @@ def _simple(prop, tier, seed, jobs, limit):
     return run_hint_family(prop, tier, seed, jobs, limit)
 
 
+def _c01(prop, tier, seed, jobs, limit):
+    """C01 = the hint-family obligations + model validation on beartype's own hint x pith tables."""
+    from . import engine_g, c01data
+    cases = hint_cases(prop, tier, seed) + c01data.cases(tier, seed)
+
+    def run_case(prop, name, hint, confkw, tier, src):
+        if src.get('gen') == 'testdata':
+            return c01data.run_case(prop, name, hint, confkw, tier, src)
+        return engine_g.run_case(prop, name, hint, confkw, tier, src)
+    return run_hint_family(prop, tier, seed, jobs, limit, run_case=run_case, cases=cases,
+                           extra_assumptions=["beartype's own hint x pith tables (beartype_test/a00_unit/data/hint/pep/proposal) are pushed "
+                                              'through the encoding and the reference semantics every run; a disagreement is a harness error'])
+
+
 def _c09(prop, tier, seed, jobs, limit):
     from .xh import c09x
     extra = run_engine_x(prop, c09x.specs_c09(tier, seed), jobs) if not limit else None
@@ -449,7 +463,7 @@ RUNNERS = {
     'C13': _c13,
     'C14': _c14,
     'C18': _c18,
-    'C01': _simple,
+    'C01': _c01,
     'C02': _simple,
     'C03': _c03,
     'C06': _c06,
